@@ -68,6 +68,11 @@ def translate(repo=None):
                         "from_base": [sinfo["from_base"]["cond"], sinfo["from_base"]["then"], sinfo["from_base"]["else"]],
                         "change_base": [sinfo["change_base"]["cond"], sinfo["change_base"]["then"], sinfo["change_base"]["else"]],
                         "errors": sinfo["errors"], "struct_attrs": sinfo["struct"]["attrs"], "struct_fields": [list(f) for f in sinfo["struct"]["fields"]]}
+    # the bodies of every function that re-bases an operand, and of its not_autoconvert twin
+    import opsbody
+    ov, oents = opsbody.emit(repo)
+    ch1 = C.write_if_changed(os.path.join(C.GEN, "OpsSrc.v"), ov) or ch1
+    data["ops_src"] = [{"file": e["file"], "line": e["line"], "flavour": e["flavour"], "trait": e["trait"], "fn": e["fn"], "body": e["term"]} for e in oents]
     cdata = uom2coq.tables_json(ctab)
     cdata["reading_stats"] = crstats
     data["custom"] = cdata
